@@ -13,7 +13,7 @@ use parking_lot::RwLock;
 
 use crate::desc::{Desc, Describer};
 use crate::errors::{Error, Result};
-use crate::metrics::{Collector, Metric};
+use crate::metrics::{Collector, Metric, SEPARATOR_BYTE};
 use crate::nohash::BuildNoHashHasher;
 use crate::proto::{MetricFamily, MetricType};
 
@@ -128,6 +128,7 @@ impl<T: MetricVecBuilder> MetricVecCore<T> {
         let mut h = FnvHasher::default();
         for val in vals {
             h.write(val.as_ref().as_bytes());
+            h.write_u8(SEPARATOR_BYTE);
         }
 
         Ok(h.finish())
@@ -147,7 +148,10 @@ impl<T: MetricVecBuilder> MetricVecCore<T> {
         let mut h = FnvHasher::default();
         for name in &self.desc.variable_labels {
             match labels.get(&name.as_ref()) {
-                Some(val) => h.write(val.as_ref().as_bytes()),
+                Some(val) => {
+                    h.write(val.as_ref().as_bytes());
+                    h.write_u8(SEPARATOR_BYTE);
+                }
                 None => {
                     return Err(Error::Msg(format!(
                         "label name {} missing in label map",
